@@ -195,6 +195,13 @@ def _is_literal(v: ast.AST) -> bool:
     return False
 
 
+def _is_pure_display(e: ast.AST) -> bool:
+    """a list/tuple display or comprehension built from attribute reads only (no calls): a fresh value, evaluating it earlier changes nothing"""
+    if not isinstance(e, (ast.List, ast.Tuple, ast.ListComp)):
+        return False
+    return not any(isinstance(x, (ast.Call, ast.NamedExpr, ast.Await, ast.Yield, ast.YieldFrom, ast.Lambda)) for x in ast.walk(e))
+
+
 def _computes_only(helper: ast.FunctionDef) -> bool:
     """the helper only computes and returns a value: local assignments (also into containers it created itself), tests, asserts, returns"""
     a = helper.args
@@ -209,6 +216,10 @@ def _computes_only(helper: ast.FunctionDef) -> bool:
                 continue          # a slot of a list/dict the helper built itself
             return False
         if isinstance(x, ast.Expr) and isinstance(x.value, ast.Call):
+            f = x.value.func
+            # growing / ordering a list the helper owns or was handed (`dims.append(1)`) touches nothing the caller's statement reads elsewhere
+            if isinstance(f, ast.Attribute) and isinstance(f.value, ast.Name) and f.value.id in (own | params) and f.attr in ("append", "extend", "insert", "sort", "reverse"):
+                continue
             return False
         if isinstance(x, (ast.AugAssign,)) and not isinstance(x.target, ast.Name):
             return False
@@ -249,8 +260,8 @@ class Inliner:
                 own = getattr(fi, "orig", None) or fi.node
                 nested = [x for x in ast.walk(own) if isinstance(x, ast.FunctionDef) and x is not own and x.name == name]
                 rebound = [x for x in ast.walk(own) if isinstance(x, ast.Name) and x.id == name and isinstance(x.ctx, ast.Store)]
-                if len(nested) == 1 and not rebound and not (nested[0].args.args or nested[0].args.vararg or nested[0].args.kwarg or nested[0].args.kwonlyargs) \
-                        and not call.args and not call.keywords \
+                if len(nested) == 1 and not rebound and not (nested[0].args.vararg or nested[0].args.kwarg) \
+                        and not any(isinstance(a_, ast.Starred) for a_ in call.args) and all(k_.arg is not None for k_ in call.keywords) \
                         and not any(isinstance(x, (ast.Yield, ast.YieldFrom, ast.Await, ast.Global, ast.Nonlocal)) for x in ast.walk(nested[0])):
                     return nested[0]
         if name is None or target is None:
@@ -445,7 +456,7 @@ class Inliner:
                         calls = [val]          # x += helper(...): evaluate the helper into a temporary first
                     elif isinstance(val, ast.Call):
                         calls = []
-                    if len(calls) == 1 and all(_is_simple(a) for a in calls[0].args) and all(_is_simple(k.value) for k in calls[0].keywords):
+                    if len(calls) == 1 and all(_is_simple(a) or _is_pure_display(a) for a in calls[0].args) and all(_is_simple(k.value) for k in calls[0].keywords):
                         h = self.resolve(calls[0], fi)
                         if h is not None and self.expr_inline(h, calls[0]) is None:
                             self.counter += 1
@@ -463,6 +474,17 @@ class Inliner:
                                 out += self.rewrite_block(repl2, fi, depth + 1)
                                 out.append(s)
                                 continue
+            # `for x in helper(...)`: the iterable is evaluated once before the loop – a multi-statement value helper is hoisted there
+            if depth < MAX_DEPTH and isinstance(s, ast.For) and isinstance(s.iter, ast.Call) and all(_is_simple(a) for a in s.iter.args) and not s.iter.keywords:
+                h = self.resolve(s.iter, fi)
+                if h is not None and self.expr_inline(h, s.iter) is None and _computes_only(h):
+                    self.counter += 1
+                    tmp = f"hoisted__h{self.counter}"
+                    repl2 = self.splice(h, s.iter, "assign", ast.Name(id=tmp, ctx=ast.Store()))
+                    if repl2 is not None:
+                        self.inlined.append((fi.qualname, ast.unparse(s.iter.func)))
+                        s.iter = ast.copy_location(ast.Name(id=tmp, ctx=ast.Load()), s.iter)
+                        out += self.rewrite_block(repl2, fi, depth + 1)
             # nested blocks
             for fld in ("body", "orelse", "finalbody"):
                 sub = getattr(s, fld, None)
@@ -522,24 +544,363 @@ class Inliner:
                 (isinstance(x.func, ast.Attribute) and x.func.attr.startswith("_") and not x.func.attr.startswith("__") and x.func.attr not in KNOWN_PRIVATE)
                 or (isinstance(x.func, ast.Name) and x.func.id.startswith("_") and not x.func.id.startswith("__") and x.func.id not in KNOWN_PRIVATE)) for x in ast.walk(fi.orig))
             has_closure = any(isinstance(x, ast.FunctionDef) and x is not fi.orig for x in ast.walk(fi.orig))
-            if not src_has_private and not has_closure:
+            tabs = self._level_tables(fi)
+            uses_table = bool(tabs) and any(isinstance(x, ast.Name) and x.id in tabs for x in ast.walk(fi.orig))
+            if not src_has_private and not has_closure and not uses_table:
                 continue
             new = copy.deepcopy(fi.orig)
             before = len(self.inlined)
+            unrolled = self._unroll_level_table(new, fi)
             new.body = self.rewrite_block(new.body, fi, 0)
-            if len(self.inlined) > before:
+            if len(self.inlined) > before or unrolled:
                 ast.fix_missing_locations(new)
                 fi.node = new
         self.repo.absorbed = self._absorbed(fis)
         for fi in fis:
             if not fi.module.relpath.startswith("examples/"):
+                self._assertion_raises(fi)
+                self._private_properties(fi)
                 self._match_to_if(fi)
                 self._unwalrus(fi)
+                self._unroll_small_loops(fi)
                 self._object_aliases(fi)
+                self._registry_paths(fi)
                 self._module_constants(fi)
+                self._specialise_levels(fi)
                 self._level_aliases(fi)
 
-    OBJECT_ATTRS = {"fock", "polarization", "envelope", "composite_envelope", "container"}
+    def _level_tables(self, fi):
+        tables = getattr(fi.module, "_pwsa_level_tables", None)
+        if tables is None:
+            def lvl(e):
+                return e.attr if isinstance(e, ast.Attribute) and ast.unparse(e.value).split(".")[-1] == "ExpansionLevel" and e.attr in self.LEVEL_ORDER else None
+            counts: Dict[str, int] = {}
+            for st in ast.walk(fi.module.tree):
+                if isinstance(st, ast.Name) and isinstance(st.ctx, (ast.Store, ast.Del)):
+                    counts[st.id] = counts.get(st.id, 0) + 1
+            tables = {}
+            for st in fi.module.tree.body:
+                tgt = st.targets[0] if isinstance(st, ast.Assign) and len(st.targets) == 1 else (st.target if isinstance(st, ast.AnnAssign) else None)
+                v = getattr(st, "value", None)
+                if isinstance(tgt, ast.Name) and counts.get(tgt.id) == 1 and isinstance(v, ast.Dict) and v.keys and all(k is not None and lvl(k) for k in v.keys):
+                    tables[tgt.id] = {lvl(k): val for k, val in zip(v.keys, v.values)}
+            try:
+                fi.module._pwsa_level_tables = tables
+            except Exception:
+                pass
+        return tables
+
+    def _unroll_level_table(self, fn: ast.FunctionDef, fi) -> bool:
+        """`recipe = TABLE.get(X.expansion_level)` followed by `if recipe is not None: BODY [else: ELSE]`, TABLE being a module-level dict
+        keyed by ExpansionLevel members, is read as the chain `if X.expansion_level == <key1>: BODY[recipe := value1] elif … else: ELSE` it stands
+        for; a tuple of functions unpacked from the entry (`f, g = recipe`) names those functions in that arm.  Works on the copy `fn` in place."""
+        tables = self._level_tables(fi)
+        if not tables:
+            return False
+        changed = [False]
+        params = {a.arg for a in fn.args.posonlyargs + fn.args.args + fn.args.kwonlyargs}
+        stores: Dict[str, int] = {}
+        for x in ast.walk(fn):
+            if isinstance(x, ast.Name) and isinstance(x.ctx, (ast.Store, ast.Del)):
+                stores[x.id] = stores.get(x.id, 0) + 1
+
+        def entry_of(st):
+            """(local, table, subject, strict) for `local = TABLE.get(subject)` / `local = TABLE[subject]`"""
+            if not (isinstance(st, ast.Assign) and len(st.targets) == 1 and isinstance(st.targets[0], ast.Name)):
+                return None
+            name, v = st.targets[0].id, st.value
+            if stores.get(name) != 1 or name in params:
+                return None
+            if isinstance(v, ast.Call) and isinstance(v.func, ast.Attribute) and v.func.attr == "get" and isinstance(v.func.value, ast.Name) and v.func.value.id in tables \
+                    and len(v.args) == 1 and not v.keywords:
+                sub, strict, t = v.args[0], False, v.func.value.id
+            elif isinstance(v, ast.Subscript) and isinstance(v.value, ast.Name) and v.value.id in tables:
+                sub, strict, t = v.slice, True, v.value.id
+            else:
+                return None
+            if not (isinstance(sub, ast.Attribute) and sub.attr == "expansion_level" and _is_simple(sub)) or t in params:
+                return None
+            return name, t, sub, strict
+
+        def specialise(body, name, value):
+            body = [_Subst({name: value}, {}).visit(copy.deepcopy(b)) for b in body]
+            # `f, g = (fa, ga)` with plain names on the right: the arm calls fa / ga
+            out = []
+            alias: Dict[str, ast.AST] = {}
+            for b in body:
+                if isinstance(b, ast.Assign) and len(b.targets) == 1 and isinstance(b.targets[0], ast.Tuple) and isinstance(b.value, ast.Tuple) \
+                        and len(b.targets[0].elts) == len(b.value.elts) and all(isinstance(t_, ast.Name) for t_ in b.targets[0].elts) and all(isinstance(v_, ast.Name) for v_ in b.value.elts):
+                    names = [t_.id for t_ in b.targets[0].elts]
+                    rest_stores = sum(1 for bb in body if bb is not b for y in ast.walk(bb) if isinstance(y, ast.Name) and isinstance(y.ctx, ast.Store) and y.id in names)
+                    if rest_stores == 0:
+                        alias.update({t_.id: v_ for t_, v_ in zip(b.targets[0].elts, b.value.elts)})
+                        continue
+                if isinstance(b, ast.Assign) and len(b.targets) == 1 and isinstance(b.targets[0], ast.Name) and isinstance(b.value, ast.Name) \
+                        and sum(1 for bb in body for y in ast.walk(bb) if isinstance(y, ast.Name) and isinstance(y.ctx, ast.Store) and y.id == b.targets[0].id) == 1 \
+                        and b.value.id not in stores:
+                    alias[b.targets[0].id] = b.value
+                    continue
+                out.append(b)
+            if alias:
+                out = [_Subst(alias, {}).visit(b) for b in out]
+            return out or [ast.Pass()]
+
+        def block(stmts):
+            out = []
+            i = 0
+            while i < len(stmts):
+                st = stmts[i]
+                for fld in ("body", "orelse", "finalbody"):
+                    sub = getattr(st, fld, None)
+                    if isinstance(sub, list) and sub and isinstance(sub[0], ast.stmt) and not isinstance(st, (ast.FunctionDef, ast.ClassDef)):
+                        setattr(st, fld, block(sub))
+                ent = entry_of(st)
+                nxt = stmts[i + 1] if i + 1 < len(stmts) else None
+                if ent is not None:
+                    name, t, subj, strict = ent
+                    used_later = any(isinstance(y, ast.Name) and y.id == name for later in stmts[i + 2:] for y in ast.walk(later))
+                    guard = None
+                    if isinstance(nxt, ast.If) and isinstance(nxt.test, ast.Compare) and len(nxt.test.ops) == 1 and isinstance(nxt.test.left, ast.Name) and nxt.test.left.id == name \
+                            and isinstance(nxt.test.comparators[0], ast.Constant) and nxt.test.comparators[0].value is None and isinstance(nxt.test.ops[0], (ast.IsNot, ast.Is)):
+                        guard = "isnot" if isinstance(nxt.test.ops[0], ast.IsNot) else "is"
+                    if guard and not used_later:
+                        body, other = (nxt.body, nxt.orelse) if guard == "isnot" else (nxt.orelse, nxt.body)
+                        body = block(body)
+                        chain = list(other) if not strict else [ast.copy_location(ast.Raise(exc=ast.Call(func=ast.Name(id="KeyError", ctx=ast.Load()), args=[], keywords=[]), cause=None), st)]
+                        for key in reversed(list(tables[t])):
+                            test = ast.Compare(left=copy.deepcopy(subj), ops=[ast.Eq()],
+                                               comparators=[ast.Attribute(value=ast.Name(id="ExpansionLevel", ctx=ast.Load()), attr=key, ctx=ast.Load())])
+                            node = ast.If(test=test, body=specialise(body, name, tables[t][key]), orelse=chain)
+                            chain = [ast.copy_location(node, nxt)]
+                        out += chain
+                        changed[0] = True
+                        i += 2
+                        continue
+                    if strict and nxt is not None:
+                        rest = block(stmts[i + 1:])
+                        chain = [ast.copy_location(ast.Raise(exc=ast.Call(func=ast.Name(id="KeyError", ctx=ast.Load()), args=[], keywords=[]), cause=None), st)]
+                        for key in reversed(list(tables[t])):
+                            test = ast.Compare(left=copy.deepcopy(subj), ops=[ast.Eq()],
+                                               comparators=[ast.Attribute(value=ast.Name(id="ExpansionLevel", ctx=ast.Load()), attr=key, ctx=ast.Load())])
+                            node = ast.If(test=test, body=specialise(rest, name, tables[t][key]), orelse=chain)
+                            chain = [ast.copy_location(node, st)]
+                        out += chain
+                        changed[0] = True
+                        return out
+                out.append(st)
+                i += 1
+            return out
+        fn.body = block(fn.body)
+        return changed[0]
+
+    def _private_properties(self, fi) -> None:
+        """a private read-only property that only returns an expression over self (`_in_envelope`: `return isinstance(self.index, int)`) is read
+        as that expression where a method of the class (or a subclass) reads it on self"""
+        if fi.cls is None:
+            return
+        fn = fi.node
+        reads = [x for x in ast.walk(fn) if isinstance(x, ast.Attribute) and isinstance(x.ctx, ast.Load) and isinstance(x.value, ast.Name) and x.value.id == "self"
+                 and x.attr.startswith("_") and not x.attr.startswith("__")]
+        if not reads:
+            return
+        table: Dict[str, ast.AST] = {}
+        for x in reads:
+            if x.attr in table:
+                continue
+            g = self.repo.resolve_property(fi.cls.name, x.attr)
+            if g is None or self.repo.resolve_property(fi.cls.name, x.attr, setter=True) is not None:
+                continue
+            gnode = getattr(g, "orig", None) or g.node
+            body = _body_wo_doc(gnode)
+            if len(body) == 1 and isinstance(body[0], ast.Return) and body[0].value is not None and gnode is not fn \
+                    and not any(isinstance(y, (ast.Call,)) and not (isinstance(y.func, ast.Name) and y.func.id in ("isinstance", "len", "bool", "int")) for y in ast.walk(body[0].value)) \
+                    and all(y.id in ("self", "isinstance", "len", "bool", "int", "tuple", "list", "None") or y.id[:1].isupper() for y in ast.walk(body[0].value) if isinstance(y, ast.Name)):
+                table[x.attr] = body[0].value
+        if not table:
+            return
+        new = copy.deepcopy(fn) if fn is getattr(fi, "orig", None) else fn
+
+        class _PP(ast.NodeTransformer):
+            def visit_Attribute(self, n):
+                self.generic_visit(n)
+                if isinstance(n.ctx, ast.Load) and isinstance(n.value, ast.Name) and n.value.id == "self" and n.attr in table:
+                    return ast.copy_location(copy.deepcopy(table[n.attr]), n)
+                return n
+
+            def visit_FunctionDef(self, n):
+                if n is new:
+                    self.generic_visit(n)
+                return n
+        _PP().visit(new)
+        ast.fix_missing_locations(new)
+        fi.node = new
+
+    def _assertion_raises(self, fi) -> None:
+        """`if not <test>: raise AssertionError[(msg)]` (no else, nothing else in the body) is the statement `assert <test>[, msg]` written out"""
+        fn = fi.node
+
+        def form(st):
+            if not (isinstance(st, ast.If) and not st.orelse and len(st.body) == 1 and isinstance(st.body[0], ast.Raise) and st.body[0].cause is None):
+                return None
+            exc = st.body[0].exc
+            msg = None
+            if isinstance(exc, ast.Call) and isinstance(exc.func, ast.Name) and exc.func.id == "AssertionError" and len(exc.args) <= 1 and not exc.keywords:
+                msg = exc.args[0] if exc.args else None
+            elif not (isinstance(exc, ast.Name) and exc.id == "AssertionError"):
+                return None
+            test = st.test.operand if isinstance(st.test, ast.UnaryOp) and isinstance(st.test.op, ast.Not) else ast.UnaryOp(op=ast.Not(), operand=st.test)
+            return test, msg
+        if not any(form(x) for x in ast.walk(fn)):
+            return
+        new = copy.deepcopy(fn) if fn is getattr(fi, "orig", None) else fn
+
+        def block(stmts):
+            out = []
+            for st in stmts:
+                for fld in ("body", "orelse", "finalbody"):
+                    sub = getattr(st, fld, None)
+                    if isinstance(sub, list) and sub and isinstance(sub[0], ast.stmt) and not isinstance(st, (ast.FunctionDef, ast.ClassDef)):
+                        setattr(st, fld, block(sub))
+                if isinstance(st, ast.Match):
+                    for c in st.cases:
+                        c.body = block(c.body)
+                if isinstance(st, ast.Try):
+                    for h in st.handlers:
+                        h.body = block(h.body)
+                f = form(st)
+                if f is not None:
+                    out.append(ast.copy_location(ast.Assert(test=f[0], msg=f[1]), st))
+                else:
+                    out.append(st)
+            return out
+        new.body = block(new.body)
+        ast.fix_missing_locations(new)
+        fi.node = new
+
+    def _unroll_small_loops(self, fi) -> None:
+        """`for axis in [row, col]: indices[axis] = v` over a display of at most four plain names / attribute reads / `.index()` look-ups (also through
+        the temporary a hoisted helper result was put in) is read as its body once per element; only loops whose body does nothing but fill slots
+        `<list>[axis] = <value>`, without else, whose variable is not read outside such loops"""
+        fn = fi.node
+        cands = [l for l in ast.walk(fn) if isinstance(l, ast.For) and isinstance(l.target, ast.Name)]
+        if not cands:
+            return
+        stores: Dict[str, int] = {}
+        for x in ast.walk(fn):
+            if isinstance(x, ast.Name) and isinstance(x.ctx, (ast.Store, ast.Del)):
+                stores[x.id] = stores.get(x.id, 0) + 1
+        once = {x.targets[0].id: x.value for x in ast.walk(fn) if isinstance(x, ast.Assign) and len(x.targets) == 1 and isinstance(x.targets[0], ast.Name) and stores.get(x.targets[0].id) == 1}
+
+        def display(e):
+            if isinstance(e, ast.Name) and e.id in once and e.id.startswith("hoisted__h"):
+                e = once[e.id]
+            if isinstance(e, (ast.List, ast.Tuple)) and 1 <= len(e.elts) <= 4 and all(_is_simple(x) or (isinstance(x, ast.Call) and isinstance(x.func, ast.Attribute) and x.func.attr == "index"
+                                                                                                         and _is_simple(x.func.value) and all(_is_simple(a) for a in x.args)) for x in e.elts):
+                return e.elts
+            return None
+
+        def eligible(l):
+            elts = display(l.iter)
+            same = [l2 for l2 in ast.walk(fn) if isinstance(l2, ast.For) and isinstance(l2.target, ast.Name) and l2.target.id == l.target.id]
+            if elts is None or l.orelse or stores.get(l.target.id) != len(same):
+                return None
+            # only the slot-filling idiom `<list>[var] = <value>`: other small loops (`for s in [self.fock, self.polarization]: …`) are read as written
+            if not all(isinstance(b, ast.Assign) and len(b.targets) == 1 and isinstance(b.targets[0], ast.Subscript) and isinstance(b.targets[0].slice, ast.Name)
+                       and b.targets[0].slice.id == l.target.id and isinstance(b.targets[0].value, ast.Name) for b in l.body):
+                return None
+            inside = {id(y) for l2 in same for b in l2.body for y in ast.walk(b)}
+            if any(isinstance(y, ast.Name) and y.id == l.target.id and isinstance(y.ctx, ast.Load) and id(y) not in inside for y in ast.walk(fn)):
+                return None
+            # a call element is evaluated once per use: only when the body reads the variable exactly once
+            uses = sum(1 for b in l.body for y in ast.walk(b) if isinstance(y, ast.Name) and y.id == l.target.id)
+            if any(isinstance(x, ast.Call) for x in elts) and uses != 1:
+                return None
+            # the body must not change what the later elements read
+            body_stores = {y.id for b in l.body for y in ast.walk(b) if isinstance(y, ast.Name) and isinstance(y.ctx, ast.Store)}
+            if any(isinstance(y, ast.Name) and y.id in body_stores for x in elts for y in ast.walk(x)):
+                return None
+            return elts
+        if not any(eligible(l) for l in cands):
+            return
+        new = copy.deepcopy(fn) if fn is getattr(fi, "orig", None) else fn
+        changed = [False]
+
+        def block(stmts):
+            out = []
+            for st in stmts:
+                for fld in ("body", "orelse", "finalbody"):
+                    sub = getattr(st, fld, None)
+                    if isinstance(sub, list) and sub and isinstance(sub[0], ast.stmt) and not isinstance(st, (ast.FunctionDef, ast.ClassDef)):
+                        setattr(st, fld, block(sub))
+                if isinstance(st, ast.For) and isinstance(st.target, ast.Name):
+                    elts = verdict.get(id(st))
+                    if elts is not None:
+                        for e in elts:
+                            out += [_Subst({st.target.id: e}, {}).visit(copy.deepcopy(b)) for b in st.body]
+                        changed[0] = True
+                        continue
+                out.append(st)
+            return out
+        # (eligibility is judged on the tree that is rewritten)
+        fn = new
+        stores = {}
+        for x in ast.walk(fn):
+            if isinstance(x, ast.Name) and isinstance(x.ctx, (ast.Store, ast.Del)):
+                stores[x.id] = stores.get(x.id, 0) + 1
+        once = {x.targets[0].id: x.value for x in ast.walk(fn) if isinstance(x, ast.Assign) and len(x.targets) == 1 and isinstance(x.targets[0], ast.Name) and stores.get(x.targets[0].id) == 1}
+        verdict = {id(l): eligible(l) for l in ast.walk(new) if isinstance(l, ast.For) and isinstance(l.target, ast.Name)}
+        new.body = block(new.body)
+        if changed[0]:
+            ast.fix_missing_locations(new)
+            fi.node = new
+
+    def _registry_paths(self, fi) -> None:
+        """CompositeEnvelope's read-only properties `envelopes`, `state_objs`, `states`, `product_states` return an attribute of the container
+        that the property `container` returns: inside the class `self.container.<attr>` is read as the property that returns it"""
+        if fi.cls is None or fi.cls.name != "CompositeEnvelope":
+            return
+        table = getattr(self, "_reg_table", None)
+        if table is None:
+            table = {}
+            cont = None
+            props = {}
+            for name, m in fi.cls.getters.items():
+                node = getattr(m, "orig", None) or m.node
+                body = _body_wo_doc(node)
+                if len(body) == 1 and isinstance(body[0], ast.Return) and body[0].value is not None:
+                    props[name] = body[0].value
+            for name, v in props.items():
+                if ast.unparse(v) in ("CompositeEnvelope._containers[self.uid]", "self._containers[self.uid]"):
+                    cont = name
+            if cont is not None:
+                for name, v in sorted(props.items()):
+                    if isinstance(v, ast.Attribute) and ast.unparse(v.value) in ("CompositeEnvelope._containers[self.uid]", "self._containers[self.uid]", f"self.{cont}"):
+                        table.setdefault((cont, v.attr), name)
+            # when two properties return the same attribute (`states`, `product_states`) the one named like the attribute is preferred
+            for (c_, attr), name in list(table.items()):
+                if attr in props and isinstance(props[attr], ast.Attribute) and props[attr].attr == attr:
+                    table[(c_, attr)] = attr
+            self._reg_table = table
+        if not table or fi.node.name in {n_ for (_c, _a), n_ in table.items()} or any(fi.node.name == c_ for (c_, _a) in table):
+            return
+        fn = fi.node
+        hit = [x for x in ast.walk(fn) if isinstance(x, ast.Attribute) and isinstance(x.ctx, ast.Load) and isinstance(x.value, ast.Attribute)
+               and ast.unparse(x.value.value) == "self" and (x.value.attr, x.attr) in table]
+        if not hit:
+            return
+        new = copy.deepcopy(fn) if fn is getattr(fi, "orig", None) else fn
+
+        class _P(ast.NodeTransformer):
+            def visit_Attribute(self, n):
+                self.generic_visit(n)
+                if isinstance(n.ctx, ast.Load) and isinstance(n.value, ast.Attribute) and ast.unparse(n.value.value) == "self" and (n.value.attr, n.attr) in table:
+                    return ast.copy_location(ast.Attribute(value=n.value.value, attr=table[(n.value.attr, n.attr)], ctx=ast.Load()), n)
+                return n
+        _P().visit(new)
+        ast.fix_missing_locations(new)
+        fi.node = new
+
+    OBJECT_ATTRS = {"fock", "polarization", "envelope", "composite_envelope", "container", "states", "product_states", "envelopes", "state_objs", "_operation_type"}
 
     def _object_aliases(self, fi) -> None:
         """`fock = self.fock` / `target = states[0]` name an *object* that the function never rebinds: the local is read as the
@@ -554,14 +915,39 @@ class Inliner:
                 stores[x.id] = stores.get(x.id, 0) + 1
         attr_stores = {x.attr for x in ast.walk(fn) if isinstance(x, ast.Attribute) and isinstance(x.ctx, ast.Store)}
         cands: Dict[str, ast.AST] = {}
-        for x in ast.walk(fn):
-            if isinstance(x, ast.Assign) and len(x.targets) == 1 and isinstance(x.targets[0], ast.Name) and stores.get(x.targets[0].id) == 1 and x.targets[0].id not in params:
+        # loop variables bound by exactly one `for <name> in …`: an alias of `<name>.<object attr>` made inside that loop's body is good for
+        # the reads that follow it in the same body
+        all_loops = [l for l in ast.walk(fn) if isinstance(l, ast.For) and isinstance(l.target, ast.Name)]
+        plain_stores: Dict[str, int] = {}
+        for l in all_loops:
+            plain_stores[l.target.id] = plain_stores.get(l.target.id, 0) + 1
+        # names bound by `for` headers only (one or several loops in sequence)
+        loop_only = {n_ for n_, c_ in plain_stores.items() if stores.get(n_) == c_ and n_ not in params}
+        assigns = [x for x in ast.walk(fn) if isinstance(x, ast.Assign) and len(x.targets) == 1 and isinstance(x.targets[0], ast.Name)
+                   and stores.get(x.targets[0].id) == 1 and x.targets[0].id not in params]
+        for _ in range(3):
+            for x in assigns:
+                t = x.targets[0].id
+                if t in cands:
+                    continue
                 v = x.value
-                if isinstance(v, ast.Attribute) and v.attr in self.OBJECT_ATTRS and _is_simple(v) and v.attr not in attr_stores \
-                        and isinstance(_root(v), ast.Name) and (_root(v).id in params or _root(v).id == "self"):
-                    cands[x.targets[0].id] = v
+                if isinstance(v, ast.Attribute) and v.attr in self.OBJECT_ATTRS and _is_simple(v) and v.attr not in attr_stores and isinstance(_root(v), ast.Name):
+                    r = _root(v).id
+                    if r in params or r == "self":
+                        cands[t] = v
+                    elif r in cands:
+                        cands[t] = _Subst({r: cands[r]}, {}).visit(copy.deepcopy(v))
+                    elif r in loop_only:
+                        encl = [l for l in all_loops if l.target.id == r and any(y is x for b in l.body for y in ast.walk(b))]
+                        if len(encl) != 1:
+                            continue
+                        loop = encl[0]
+                        inside = {id(y) for b in loop.body for y in ast.walk(b)}
+                        loads = [y for y in ast.walk(fn) if isinstance(y, ast.Name) and y.id == t and isinstance(y.ctx, ast.Load)]
+                        if id(x) in inside and all(id(y) in inside and (y.lineno, y.col_offset) > (x.lineno, x.col_offset) for y in loads):
+                            cands[t] = v
                 elif vararg and isinstance(v, ast.Subscript) and isinstance(v.value, ast.Name) and v.value.id == vararg and isinstance(v.slice, ast.Constant) and isinstance(v.slice.value, int):
-                    cands[x.targets[0].id] = v
+                    cands[t] = v
         if not cands:
             return
         new = copy.deepcopy(fn) if fn is getattr(fi, "orig", None) else fn
@@ -599,6 +985,9 @@ class Inliner:
                     continue
                 if isinstance(pt, ast.MatchAs) and pt.pattern is None and pt.name is None and i == len(m.cases) - 1:
                     continue
+                # `case SomeClass():` – a class pattern without sub-patterns is isinstance(subject, SomeClass)
+                if isinstance(pt, ast.MatchClass) and not pt.patterns and not pt.kwd_patterns and _is_simple(pt.cls):
+                    continue
                 return False
             return True
         if not any(isinstance(x, ast.Match) and eligible(x) for x in ast.walk(fn)):
@@ -624,7 +1013,10 @@ class Inliner:
                         if isinstance(c.pattern, ast.MatchAs):
                             chain = list(c.body)
                         else:
-                            test = ast.Compare(left=copy.deepcopy(st.subject), ops=[ast.Eq()], comparators=[copy.deepcopy(c.pattern.value)])
+                            if isinstance(c.pattern, ast.MatchClass):
+                                test = ast.Call(func=ast.Name(id="isinstance", ctx=ast.Load()), args=[copy.deepcopy(st.subject), copy.deepcopy(c.pattern.cls)], keywords=[])
+                            else:
+                                test = ast.Compare(left=copy.deepcopy(st.subject), ops=[ast.Eq()], comparators=[copy.deepcopy(c.pattern.value)])
                             node = ast.If(test=test, body=list(c.body), orelse=chain if isinstance(chain, list) else ([] if chain is None else [chain]))
                             chain = ast.copy_location(node, c.body[0] if c.body else st)
                     if isinstance(chain, list):
@@ -744,6 +1136,133 @@ class Inliner:
                     return ast.copy_location(copy.deepcopy(consts[n.id]), n)
                 return n
         _C().visit(new)
+        ast.fix_missing_locations(new)
+        fi.node = new
+
+    LEVEL_ORDER = {"Label": 0, "Vector": 1, "Matrix": 2}
+
+    def _specialise_levels(self, fi) -> None:
+        """a helper that takes the representation level as a parameter and was spliced in with a constant level (`level = ExpansionLevel.Vector`)
+        is read as the level-specific code it stands for: comparisons between two ExpansionLevel members are evaluated, a module-level table
+        keyed by ExpansionLevel members is read at a constant key (a lambda value applied in place is beta-reduced), once-bound locals holding
+        the resulting booleans are propagated, and `if <constant>` / `<a> if <constant> else <b>` keep the arm that is taken"""
+        fn = fi.node
+
+        def lvl(e):
+            return e.attr if isinstance(e, ast.Attribute) and ast.unparse(e.value).split(".")[-1] == "ExpansionLevel" and e.attr in self.LEVEL_ORDER else None
+        tables = getattr(fi.module, "_pwsa_level_tables", None)
+        if tables is None:
+            counts: Dict[str, int] = {}
+            for st in ast.walk(fi.module.tree):
+                if isinstance(st, ast.Name) and isinstance(st.ctx, (ast.Store, ast.Del)):
+                    counts[st.id] = counts.get(st.id, 0) + 1
+            tables = {}
+            for st in fi.module.tree.body:
+                tgt = st.targets[0] if isinstance(st, ast.Assign) and len(st.targets) == 1 else (st.target if isinstance(st, ast.AnnAssign) else None)
+                v = getattr(st, "value", None)
+                if isinstance(tgt, ast.Name) and counts.get(tgt.id) == 1 and isinstance(v, ast.Dict) and v.keys and all(k is not None and lvl(k) for k in v.keys):
+                    tables[tgt.id] = {lvl(k): val for k, val in zip(v.keys, v.values)}
+            try:
+                fi.module._pwsa_level_tables = tables
+            except Exception:
+                pass
+
+        def candidate(x) -> bool:
+            if isinstance(x, ast.Compare) and len(x.ops) == 1 and lvl(x.left) and lvl(x.comparators[0]):
+                return True
+            if isinstance(x, ast.Subscript) and isinstance(x.value, ast.Name) and x.value.id in tables and lvl(x.slice):
+                return True
+            return False
+        if not any(candidate(x) for x in ast.walk(fn)):
+            return
+        new = copy.deepcopy(fn) if fn is getattr(fi, "orig", None) else fn
+        params = {a.arg for a in new.args.posonlyargs + new.args.args + new.args.kwonlyargs}
+        order = self.LEVEL_ORDER
+
+        class _Fold(ast.NodeTransformer):
+            def visit_FunctionDef(self, n):
+                if n is new:
+                    self.generic_visit(n)
+                return n
+
+            def visit_Lambda(self, n):
+                return n
+
+            def visit_Compare(self, n):
+                self.generic_visit(n)
+                if len(n.ops) == 1 and lvl(n.left) and lvl(n.comparators[0]):
+                    a, b, op = order[lvl(n.left)], order[lvl(n.comparators[0])], n.ops[0]
+                    val = {ast.Eq: a == b, ast.Is: a == b, ast.NotEq: a != b, ast.IsNot: a != b, ast.Lt: a < b, ast.LtE: a <= b, ast.Gt: a > b, ast.GtE: a >= b}.get(type(op))
+                    if val is not None:
+                        return ast.copy_location(ast.Constant(value=val), n)
+                return n
+
+            def visit_UnaryOp(self, n):
+                self.generic_visit(n)
+                if isinstance(n.op, ast.Not) and isinstance(n.operand, ast.Constant) and isinstance(n.operand.value, bool):
+                    return ast.copy_location(ast.Constant(value=not n.operand.value), n)
+                return n
+
+            def visit_Subscript(self, n):
+                self.generic_visit(n)
+                if isinstance(n.ctx, ast.Load) and isinstance(n.value, ast.Name) and n.value.id in tables and n.value.id not in params and lvl(n.slice) in tables[n.value.id]:
+                    return ast.copy_location(copy.deepcopy(tables[n.value.id][lvl(n.slice)]), n)
+                return n
+
+            def visit_Call(self, n):
+                self.generic_visit(n)
+                f = n.func
+                if isinstance(f, ast.Lambda) and not n.keywords and not f.args.vararg and not f.args.kwarg and not f.args.kwonlyargs and not f.args.defaults \
+                        and len(f.args.args) == len(n.args) and all(_is_simple(a) for a in n.args) and not any(isinstance(a, ast.Starred) for a in n.args):
+                    bind = {p.arg: a for p, a in zip(f.args.args, n.args)}
+                    return ast.copy_location(_Subst(bind, {}).visit(copy.deepcopy(f.body)), n)
+                return n
+
+            def visit_IfExp(self, n):
+                self.generic_visit(n)
+                if isinstance(n.test, ast.Constant) and isinstance(n.test.value, bool):
+                    return n.body if n.test.value else n.orelse
+                return n
+
+        def prune(stmts):
+            out = []
+            for st in stmts:
+                if isinstance(st, (ast.FunctionDef, ast.ClassDef)):
+                    out.append(st)
+                    continue
+                for fld in ("body", "orelse", "finalbody"):
+                    sub = getattr(st, fld, None)
+                    if isinstance(sub, list) and sub and isinstance(sub[0], ast.stmt):
+                        setattr(st, fld, prune(sub))
+                if isinstance(st, ast.Try):
+                    for h in st.handlers:
+                        h.body = prune(h.body)
+                if isinstance(st, ast.Match):
+                    for c in st.cases:
+                        c.body = prune(c.body)
+                if isinstance(st, ast.If) and isinstance(st.test, ast.Constant) and isinstance(st.test.value, bool):
+                    out += st.body if st.test.value else st.orelse
+                    continue
+                out.append(st)
+            return out or [ast.Pass()]
+
+        for _ in range(3):
+            _Fold().visit(new)
+            stores: Dict[str, int] = {}
+            for x in ast.walk(new):
+                if isinstance(x, ast.Name) and isinstance(x.ctx, (ast.Store, ast.Del)):
+                    stores[x.id] = stores.get(x.id, 0) + 1
+            flags = {x.targets[0].id: x.value for x in ast.walk(new) if isinstance(x, ast.Assign) and len(x.targets) == 1 and isinstance(x.targets[0], ast.Name)
+                     and isinstance(x.value, ast.Constant) and isinstance(x.value.value, bool) and stores.get(x.targets[0].id) == 1 and x.targets[0].id not in params}
+            if flags:
+                class _Prop(ast.NodeTransformer):
+                    def visit_Name(self, n):
+                        if isinstance(n.ctx, ast.Load) and n.id in flags:
+                            return ast.copy_location(ast.Constant(value=flags[n.id].value), n)
+                        return n
+                _Prop().visit(new)
+                _Fold().visit(new)
+            new.body = prune(new.body)
         ast.fix_missing_locations(new)
         fi.node = new
 
